@@ -2,6 +2,7 @@ package ssaexec
 
 import (
 	"fmt"
+	"go/token"
 	"go/types"
 	"sort"
 	"strings"
@@ -112,6 +113,8 @@ type Path struct {
 	stepBudget  int64
 
 	race       *raceRec
+	lazyInit   map[*ssa.Package]bool // dependency packages whose initialiser was run on demand on this path
+	forceExec  *ssa.Function         // a package initialiser that is executed although initialisers are skipped by default
 	knownPreds []knownPred
 	sideTable  map[string]interface{} // per-path model state (json side table, once, waitgroups …)
 	trace      []string
@@ -533,6 +536,17 @@ func (p *Path) assert(fr *frame, id string, c value, msg string) {
 
 // ---------------------------------------------------------------- globals
 
+// lazyInitDenied: dependency packages whose initialiser is never run lazily (registration-heavy; reading their
+// initialised globals stays unmodelled).
+func lazyInitDenied(path string) bool {
+	for _, pre := range []string{"k8s.io/client-go/kubernetes/scheme", "k8s.io/api/", "google.golang.org/", "github.com/golang/protobuf", "github.com/gogo/protobuf", "net/http", "crypto/", "runtime", "reflect", "syscall", "os", "unicode"} {
+		if path == pre || strings.HasPrefix(path, pre) {
+			return true
+		}
+	}
+	return false
+}
+
 func (p *Path) globalAddr(g *ssa.Global) *value {
 	if a, ok := p.globals[g]; ok {
 		return a
@@ -545,7 +559,42 @@ func (p *Path) globalAddr(g *ssa.Global) *value {
 				p.globals[g] = &cell
 				return &cell
 			}
-			panic(abortPath{kind: "unmodelled", reason: "read of dependency global with initialiser (package init not executed): " + name})
+			// lazily: the first read of an initialised global of a dependency package runs that package's
+			// initialiser (variable initialisers and init functions; the initialisers of the packages it imports stay
+			// skipped and run the same way when one of their globals is read). What the initialiser cannot execute
+			// ends the path as unmodelled, as the read itself did before.
+			if !p.lazyInit[g.Pkg] {
+				if p.lazyInit == nil {
+					p.lazyInit = map[*ssa.Package]bool{}
+				}
+				p.lazyInit[g.Pkg] = true
+				if initFn := g.Pkg.Func("init"); initFn != nil && !lazyInitDenied(g.Pkg.Pkg.Path()) {
+					g.Pkg.Build()
+					func() {
+						defer func() {
+							if r := recover(); r != nil {
+								if ab, ok := r.(abortPath); ok && ab.kind == "unmodelled" {
+									panic(abortPath{kind: "unmodelled", reason: "read of dependency global " + name + ": its package initialiser could not be executed: " + ab.reason})
+								}
+								if tp, ok := r.(targetPanic); ok {
+									panic(abortPath{kind: "unmodelled", reason: "read of dependency global " + name + ": panic in its package initialiser: " + tp.String()})
+								}
+								panic(r)
+							}
+						}()
+						prev, prevThread := p.forceExec, p.thread
+						p.forceExec = initFn
+						// the initialiser's own accesses are not part of any thread of a race harness
+						call(p, nil, token.NoPos, initFn, nil)
+						p.forceExec, p.thread = prev, prevThread
+					}()
+					if a, ok := p.globals[g]; ok {
+						return a
+					}
+				} else {
+					panic(abortPath{kind: "unmodelled", reason: "read of dependency global with initialiser (package init not executed): " + name})
+				}
+			}
 		}
 	}
 	cell := zero(mustDeref(g.Type()))
